@@ -5,29 +5,29 @@ namespace BS.Copy
 theorem editVal_frame (e : Edit) (v : AVal) (h : ∀ lid c items, v = .list lid c items → e.target ≠ lid) :
     editVal e v = v := by
   cases v with
-  | str s => simp [editVal]
   | list lid c items =>
     have := h lid c items rfl
     cases e <;> simp_all [editVal, Edit.target]
+  | _ => simp [editVal]
 
-theorem editAttrs_frame (e : Edit) (l : List (PStr × AVal)) (h : e.target ∉ attrIds l) : editAttrs e l = l := by
+theorem editAttrs_frame (e : Edit) (l : Attrs) (h : e.target ∉ attrIds l) : editAttrs e l = l := by
   induction l with
   | nil => simp [editAttrs]
   | cons kv r ih =>
-    obtain ⟨k, v⟩ := kv
+    obtain ⟨k, m, v⟩ := kv
     cases v with
-    | str s =>
-      simp only [attrIds] at h
-      have := ih h
-      simp only [editAttrs] at this
-      simp only [editAttrs, List.map_cons, this]
-      simp [editVal]
     | list lid c items =>
       simp only [attrIds, List.mem_cons, not_or] at h
       have := ih h.2
       simp only [editAttrs] at this
       simp only [editAttrs, List.map_cons, this]
       rw [editVal_frame e _ (by intro l' c' i' he; cases he; exact h.1)]
+    | _ =>
+      simp only [attrIds] at h
+      have := ih h
+      simp only [editAttrs] at this
+      simp only [editAttrs, List.map_cons, this]
+      simp [editVal]
 
 theorem editData_frame (e : Edit) (i : Nat) (d : TagData) (hi : e.target ≠ i) (h : e.target ∉ attrIds d.attrs) :
     editData e i d = d := by
